@@ -2,18 +2,88 @@ package main
 
 import (
 	"fmt"
+	"os"
+	"path/filepath"
+	"strings"
+	"sync"
 	"time"
 )
+
+// raceEnv is the environment of one race-engine run, a pure function of the run seed.
+func raceEnv(b *Batch, seed uint64) []string {
+	dir := filepath.Join(binDir, "race")
+	os.MkdirAll(dir, 0o755)
+	env := append([]string{}, b.Env...)
+	env = append(env, "GORACE=halt_on_error=0 log_path="+filepath.Join(dir, "log"))
+	switch mix(seed, "frozen-concurrency", 0) % 4 {
+	case 1:
+		env = append(env, "FROZEN_CONCURRENCY=off")
+	case 2:
+		env = append(env, "FROZEN_CONCURRENCY=0")
+	case 3:
+		env = append(env, "FROZEN_CONCURRENCY=4")
+	}
+	return env
+}
+
+// runRace gives every run a process of its own (process-wide lazies can be
+// first-used only once) in the -race build of the worker.
+func runRace(p *Prop, b *Batch, n int, verifSeed uint64, a *agg, lanes int, deadline time.Time) {
+	var wg sync.WaitGroup
+	for lane := 0; lane < lanes; lane++ {
+		wg.Add(1)
+		go func(lane int) {
+			defer wg.Done()
+			hs := mix(verifSeed, "hash/"+b.Name, uint64(lane))%1000000007 + 1
+			for k := lane; k < n; k += lanes {
+				if time.Now().After(deadline) {
+					return
+				}
+				seed := mix(verifSeed, p.ID+"/"+b.Name, uint64(k))
+				w := newWorker(workerBin(b), hs, raceEnv(b, seed), timeoutOf(b))
+				r := w.Do(Request{ID: int64(k), Engine: b.Engine, Seed: seed, Knobs: b.Knobs})
+				w.stop()
+				if r.Crashed {
+					kind, frame := crashFrame(r.Stderr)
+					r.V = &Violation{Oracle: "no-crash", Sig: p.ID + "/" + kind + "/" + frame, Msg: "worker process died during the run:\n" + tail(r.Stderr, 1500)}
+					r.Engine = b.Engine
+				}
+				a.add(b, r)
+			}
+		}(lane)
+	}
+	wg.Wait()
+}
+
+func replayRace(p *Prop, path, engine string, knobs map[string]string, env []string, tp []uint64, seed uint64, sig string) int {
+	b := &Batch{Engine: engine, Knobs: knobs, Env: env, Race: true}
+	// a race needs the conflicting accesses to execute, not a particular interleaving, but which
+	// accesses execute can depend on timing: allow a few attempts and say so
+	for attempt := 1; attempt <= 5; attempt++ {
+		w := newWorker(workerBin(b), 1, raceEnv(b, seed), 300*time.Second)
+		r := w.Do(Request{ID: 1, Engine: engine, Seed: seed, Tape: tp, Replay: true, Knobs: knobs, Verbose: true})
+		w.stop()
+		if r.Infra != "" {
+			fmt.Fprintln(os.Stderr, "INFRA:", r.Infra)
+			return 2
+		}
+		if r.Crashed {
+			kind, frame := crashFrame(r.Stderr)
+			r.V = &Violation{Oracle: "no-crash", Sig: p.ID + "/" + kind + "/" + frame, Msg: tail(r.Stderr, 1500)}
+		}
+		if r.V != nil {
+			fmt.Printf("VIOLATION property=%s replay=%s\n  signature: %s (recorded %s; attempt %d of 5)\n  %s\n", p.ID, path, r.V.Sig, sig, attempt, strings.ReplaceAll(r.V.Msg, "\n", "\n  "))
+			return 1
+		}
+	}
+	fmt.Printf("replay: no violation reproduced in 5 attempts (expected %s)\n", sig)
+	return 0
+}
 
 func runXSeed(p *Prop, b *Batch, n int, verifSeed uint64, a *agg, lanes int, tier string, deadline time.Time) {
 	fmt.Println("xseed: not built yet")
 }
-func runRace(p *Prop, b *Batch, n int, verifSeed uint64, a *agg, lanes int, deadline time.Time) {
-	fmt.Println("race: not built yet")
-}
+
 func replayXSeed(p *Prop, path, engine string, knobs map[string]string, tp []uint64, out map[string]any, sig string) int {
-	return 2
-}
-func replayRace(p *Prop, path, engine string, knobs map[string]string, env []string, tp []uint64, seed uint64, sig string) int {
 	return 2
 }
